@@ -68,7 +68,9 @@ def eval_family(ev, mods, imps, s, o, acc, tagbase):
         HUB.case = {"kind": "family", "mods": mods, "imps": imps, "s": s, "o": o}
         # every third rule of a family is built by re-targeting a kept, already applied rule prefix
         rt = (ev, decoys[i % len(decoys)]) if decoys and (i + len(mods)) % 3 == 0 else None
-        run(mk_rule(cfg, retarget=rt), ev)
+        # ... and every third one is finished on a deep copy / an unpickled copy of a kept prefix (the original gets a decoy)
+        cp = (("deepcopy", "pickle")[i % 2], decoys[(i + 1) % len(decoys)]) if decoys and rt is None and (i + len(mods)) % 3 == 1 else None
+        run(mk_rule(cfg, retarget=rt, copied=cp), ev)
         acc.evaluated()
     HUB.tag = None
     out = {}
@@ -576,6 +578,8 @@ def floors(acc, tier):
         why.append(f"regex families with re-used rule objects: {acc.counters['regex_families_with_reused_rule_objects']}")
     if acc.counters["duality_checks_with_kept_rule_objects_on_recycled_architectures"] < 200 or acc.counters["architectures_built_at_the_address_of_a_dead_predecessor"] < 50:
         why.append(f"kept rule objects on recycled architectures: {acc.counters['duality_checks_with_kept_rule_objects_on_recycled_architectures']} checks, {acc.counters['architectures_built_at_the_address_of_a_dead_predecessor']} address re-uses")
+    if acc.counters["rules_finished_on_a_copy_of_a_kept_prefix:deepcopy"] < 100:
+        why.append("too few rules of the law families finished on a copy of a kept prefix")
     if acc.counters["source_monotonicity_second_from_import_of_a_package"] < 10:
         why.append("too few appended from-imports of a package the file already imports from")
     if acc.counters["source_monotonicity_pairs"] < 50:
